@@ -250,8 +250,8 @@ def static(*paths: StrPath | Iterable[StrPath] | NamedGlob) -> list[Path]:
     tr_files = sorted({translate(su_path) for su_path in su_lit_files + su_match_files})
     tr_patterns = [
         (
-            _keep_affixes(su_pattern, translate),
-            sorted(_keep_affixes(su_path, translate) for su_path in su_matches),
+            _translate_glob_path(su_pattern),
+            sorted(_translate_glob_path(su_path) for su_path in su_matches),
         )
         for su_pattern, su_matches in su_pattern_matches
     ]
@@ -333,7 +333,7 @@ def glob(pattern: StrPath, **subs: str) -> NamedGlob:
     # Substitute environment variables.
     with subs_env_vars() as subs_env:
         su_pattern = subs_env(pattern)
-    tr_pattern = _keep_affixes(su_pattern, translate)
+    tr_pattern = _translate_glob_path(su_pattern)
 
     # Collect all matches.
     ng = NamedGlob(su_pattern, subs)
@@ -343,7 +343,7 @@ def glob(pattern: StrPath, **subs: str) -> NamedGlob:
     # Directory matches keep their trailing separator,
     # which is how the director tells them apart from file matches
     # without a second, redundant list.
-    tr_paths = [_keep_affixes(path, translate) for path in ng.files()]
+    tr_paths = [_translate_glob_path(path) for path in ng.files()]
 
     # The director records the pattern with the calling step and validates the matches:
     # a match that is a known build product, or lies under `.stepup`, raises.
@@ -1801,6 +1801,17 @@ def _keep_affixes(path: StrPath, transform: Callable[[Path], Path]) -> Path:
     """
     prefix, suffix = get_affixes(path)
     return apply_affixes(transform(coerce_path(path)), prefix, suffix)
+
+
+def _translate_glob_path(path: StrPath) -> Path:
+    """Translate a glob pattern or one of its matches, restoring only its trailing `/`.
+
+    A leading `./` is dropped like `translate()` does for any other declared path:
+    the director compares patterns and matches with the normalized paths of its files,
+    so `./*.txt` must mean the same files as `*.txt`.
+    """
+    _, suffix = get_affixes(path)
+    return apply_affixes(translate(coerce_path(path)), "", suffix)
 
 
 def _translate_back_env_path(subs_env: EnvSubstitutor, path: StrPath, back: bool) -> Path:
